@@ -15,7 +15,7 @@ use serde_json::{json, Value};
 use std::collections::BTreeSet;
 use std::path::{Path, PathBuf};
 
-pub const RULE: &str = "generated test modules: a function under test (test or fixture; plain / method / async; 0-3 parameters with optional defaults and annotations; optional return annotation; single-line, multi-line with and without trailing comma; optional extra decorator) followed by a sibling function, with 1-4 body statements each placing one name in one of 24 expression roles under one of 15 binding situations; names are conftest fixtures, a same-file fixture defined above, one defined below, a non-fixture and a module-level name. lib: flagged set vs ground truth at exact token positions. server: every published undeclared-fixture diagnostic -> codeAction -> edit applied; body completion -> additionalTextEdits applied; result must parse (CPython), add the parameter to the same function only, and clear the warning after didChange. Non-trivial = non-trivial signature (return annotation, multi-line, trailing comma, method) or a role other than a bare call argument; distinct = distinct module specs.";
+pub const RULE: &str = "generated test modules: a function under test (test or fixture; plain / method / async; 0-3 parameters with optional defaults and annotations (nested brackets with their own commas, string annotations and string defaults containing `#`); optional return annotation; single-line, multi-line with and without trailing comma; optional extra decorator) followed by a sibling function, with 1-4 body statements each placing one name in one of 24 expression roles under one of 15 binding situations; names are conftest fixtures, a same-file fixture defined above, one defined below, a non-fixture and a module-level name. lib: flagged set vs ground truth at exact token positions. server: every published undeclared-fixture diagnostic -> codeAction -> edit applied; body completion -> additionalTextEdits applied; result must parse (CPython), add the parameter to the same function only, and clear the warning after didChange. Non-trivial = non-trivial signature (return annotation, multi-line, trailing comma, method) or a role other than a bare call argument; distinct = distinct module specs.";
 pub const ASSUMPTIONS: &[&str] = &[
     "ground truth is by construction; roles the statement does not name (conditional expression, f-string, await, lambda body, comprehension) and use-before-assignment are not judged for missing flags",
     "CPython 3.11 decides whether the edited document parses and which function has which parameters",
@@ -158,7 +158,9 @@ pub fn render(s: &Spec) -> Rendered17 {
         // the upper bits of the masks choose the spelling: nested brackets with their own commas
         // (and trailing commas) inside an annotation or a default value
         if ann {
-            t.push_str(match (s.ann_mask >> 4) % 4 {
+            // nibble 13: a string annotation that contains a `#` (not a comment)
+            t.push_str(match if (s.ann_mask >> 4) == 13 { 9 } else { (s.ann_mask >> 4) % 4 } {
+                9 => ": \"Colour#1\"",
                 0 | 1 => ": int",
                 2 => ": Tuple[int, int,]",
                 _ => ": Dict[str, List[int]]",
@@ -166,7 +168,8 @@ pub fn render(s: &Spec) -> Rendered17 {
         }
         if dflt {
             any_default = true;
-            let v = if (s.default_mask >> 4) % 3 == 2 { "(1,)" } else { "1" };
+            // nibble 15: a string default that contains a `#`
+            let v = if (s.default_mask >> 4) == 15 { "\"#fff\"" } else if (s.default_mask >> 4) % 3 == 2 { "(1,)" } else { "1" };
             t.push_str(&if ann { format!(" = {}", v) } else { format!("={}", v) });
         }
         parts.push(t);
